@@ -23,6 +23,9 @@ from .protocol import GeminiServerProtocol
 
 logger = get_logger(__name__)
 
+# Time allowed for completing the TLS handshake, in seconds
+HANDSHAKE_TIMEOUT = 30.0
+
 
 class TLSServerProtocol(asyncio.Protocol):
     """Wraps GeminiServerProtocol with manual PyOpenSSL TLS handling.
@@ -71,6 +74,9 @@ class TLSServerProtocol(asyncio.Protocol):
         # Peer address for logging
         self._peer_name: tuple[str, int] | None = None
 
+        # Timer that drops peers which never complete the handshake
+        self._handshake_timeout_handle: asyncio.TimerHandle | None = None
+
     def connection_made(self, transport: asyncio.BaseTransport) -> None:
         """Initialize TLS connection when TCP connection is established.
 
@@ -83,6 +89,17 @@ class TLSServerProtocol(asyncio.Protocol):
         # Create PyOpenSSL connection in server mode with memory BIO
         self.tls_conn = SSL.Connection(self.ssl_context, None)
         self.tls_conn.set_accept_state()
+
+        # Set timeout for completing the handshake (the inner protocol's request
+        # timeout only starts once the handshake is done)
+        try:
+            loop = asyncio.get_running_loop()
+            self._handshake_timeout_handle = loop.call_later(
+                HANDSHAKE_TIMEOUT, self._handle_handshake_timeout
+            )
+        except RuntimeError:
+            # No event loop running (probably in tests)
+            self._handshake_timeout_handle = None
 
         logger.debug(
             "tls_connection_started",
@@ -119,6 +136,7 @@ class TLSServerProtocol(asyncio.Protocol):
         try:
             self.tls_conn.do_handshake()
             self.handshake_complete = True
+            self._cancel_handshake_timeout()
 
             logger.debug(
                 "tls_handshake_complete",
@@ -133,6 +151,18 @@ class TLSServerProtocol(asyncio.Protocol):
             self._flush_outgoing()
         except SSL.Error as e:
             self._close_with_error(f"Handshake failed: {e}")
+
+    def _cancel_handshake_timeout(self) -> None:
+        """Cancel the handshake timer if it is still pending."""
+        if self._handshake_timeout_handle:
+            self._handshake_timeout_handle.cancel()
+            self._handshake_timeout_handle = None
+
+    def _handle_handshake_timeout(self) -> None:
+        """Drop a peer that did not complete the TLS handshake in time."""
+        self._handshake_timeout_handle = None
+        if not self.handshake_complete:
+            self._close_with_error("Handshake timeout")
 
     def _process_pending_after_handshake(self) -> None:
         """Process any application data that arrived with the final handshake message.
@@ -248,6 +278,7 @@ class TLSServerProtocol(asyncio.Protocol):
         Args:
             exc: Exception if connection closed due to error, None for clean close.
         """
+        self._cancel_handshake_timeout()
         if self.inner_protocol:
             self.inner_protocol.connection_lost(exc)
 
